@@ -31,6 +31,15 @@ PROPS = {
         "quick": {"shards": 16, "cases": 500, "watchdog_s": 1500, "require": {"evaluations": 20000, "noised_columns_observed": 40000, "tau_filters_observed": 2000, "budgets_checked": 15000}},
         "thorough": {"shards": 16, "cases": 12000, "watchdog_s": 14400, "require": {"evaluations": 500000}},
     },
+    "C04": {
+        "technique": "runtime monitoring: staged SQLite execution of DP queries with private grouping keys under scripted noise (zero / constant / PRNG); the key-release pipeline (unit-key pairs after the contribution limit, per-key unit counts, noisy counts, threshold filter, final output) is read stage by stage and checked against the base data and the independent tau formula",
+        "level_text": "Exploration: ~15k executions per quick run on databases with singleton keys, shared keys, units spread over more groups than allowed, dangling references; epsilon 1..400 so that tau ranges from ~1.1 to ~100; three noise modes. Checked per run: each unit in <= Cu (key, unit) pairs, the counted column is the tracked privacy unit, counts <= distinct units, survivors = {noisy count > tau}, output keys subset of survivors, a key held by <= 1 unit never released under zero noise, sigma and tau at least what (eps, delta) x share requires.",
+        "level_note": "Trusted: SQLite + compatibility layer, the IR pattern matcher (tau filter, noise node), the independent unit attribution over base data, Acklam's normal quantile.",
+        "rule": ("3 (query, parameters, noise mode) triples per generated DP world with a private `city`; evaluation = one staged execution; distinct non-trivial = distinct executions containing a threshold pipeline."),
+        "assumptions": COMMON_ASSUME,
+        "quick": {"shards": 16, "cases": 350, "watchdog_s": 1500, "require": {"evaluations": 10000, "threshold_pipelines_observed": 10000, "noisy_counts_checked": 50000, "released_keys_checked_against_base_data": 1500, "output_keys_checked": 8000}},
+        "thorough": {"shards": 16, "cases": 10000, "watchdog_s": 14400, "require": {"evaluations": 300000}},
+    },
     "C06": {
         "technique": "runtime monitoring: soundness oracle (independent membership) over value()/super_image() call pairs for every function and aggregate of the enums and for generated expression trees, violations localised to the lowest failing node",
         "level_text": "Exploration: for each of the 91 function variants, 20 aggregates and random expression trees (depth <= 4), argument types biased to range boundaries are drawn, several member values evaluated, and each result must lie in the propagated range (float tolerance 1e-9). ~3M judged evaluations per quick run; every function of the enum must have been evaluated or the run is inconclusive.",
